@@ -285,6 +285,30 @@ def check_component(ctx, cell, case):
                           "(B, b.n) input is answered with values that differ from per-block evaluation", CHK)
             except Exception:
                 ctx.cls("layout_multiblock_rejected")
+    # the same values as NON-CONTIGUOUS tensors (a transposed view of a (B2,B1,n) buffer; a strided slice of a wider buffer): same answers
+    if not comp.get("constraint"):
+        import torch
+        views = []
+        if rows >= 4:
+            buf = torch.from_numpy(np.ascontiguousarray(X[:4].reshape(2, 2, *X.shape[1:]).swapaxes(0, 1)))
+            views.append(("transposed_3d", buf.transpose(0, 1), full[:4]))
+        wide = np.zeros((rows, 2 * X.shape[1]) + X.shape[2:], dtype=X.dtype)
+        wide[:, ::2] = X
+        wide[:, 1::2] = X[:, ::-1] if X.ndim == 2 else 0
+        views.append(("strided_last_dim", torch.from_numpy(wide)[:, ::2], full))
+        for vname, xv, ref in views:
+            if xv.is_contiguous():
+                continue
+            try:
+                with quiet():
+                    o = fn(xv)
+            except Exception:
+                ctx.cls("layout_noncontiguous_rejected")
+                continue
+            o = (o[0] if isinstance(o, tuple) else o).detach().numpy()
+            ctx.ev()
+            good = o.size == ref.size and same(o.reshape(ref.shape), ref)
+            ctx.check(good, "C20.b_layout_noncontiguous", cell, {**ccase, "view": vname}, list(o.shape), list(ref.shape), "a non-contiguous view of the same values is answered differently from the contiguous tensor", CHK)
     ctx.cls("components_" + cell.get("component", "?").split("_")[0])
     if len(ctx.samples) < 2:
         ctx.sample({"component": name, "rows": rows, "input_shape": list(X.shape), "output_shape": list(full.shape)})
